@@ -25,7 +25,12 @@ func init() {
 
 var reCfg = regexp.MustCompile(`[A-Za-z_.()]*EncoderConfig\.`)
 
-func normCfg(a string) string { return normEnt(reCfg.ReplaceAllString(a, "cfg.")) }
+// reCfgCall: the configuration reached through the result of a helper call with arguments (cloneWith(enc, nil).EncoderConfig.)
+var reCfgCall = regexp.MustCompile(`[A-Za-z_]\w*\([^()]*\)\.(jsonEncoder\.)?EncoderConfig\.`)
+
+func normCfg(a string) string {
+	return normEnt(reCfg.ReplaceAllString(reCfgCall.ReplaceAllString(a, "cfg."), "cfg."))
+}
 
 // entParam: the name EncodeEntry gives its Entry parameter in the function being decided; renderings are normalised
 // to "ent" so that the rules do not depend on it.
@@ -269,7 +274,11 @@ func c2Entry(c *Ctx) {
 				}
 				return v
 			}
-			c.Check((Desc(at(args[0])) == "clone("+PN(fn.Params[0])+")" || bd(args[0]) == "clone("+PN(fn.Params[0])+")") && (Strip(at(args[1])) == ssa.Value(fn.Params[2]) || bd(args[1]) == PN(fn.Params[2])), "R2.1", name, "payload/fields", cl.Pos(), "call-site fields are added to the per-call clone")
+			isClone := func(d string) bool {
+				// clone(enc), or the helper under another signature: cloneWith(enc, …)
+				return d == "clone("+PN(fn.Params[0])+")" || regexp.MustCompile(`^clone\w*\(`+regexp.QuoteMeta(PN(fn.Params[0]))+`(, [^()]*)?\)$`).MatchString(d)
+			}
+			c.Check((isClone(Desc(at(args[0]))) || isClone(bd(args[0]))) && (Strip(at(args[1])) == ssa.Value(fn.Params[2]) || bd(args[1]) == PN(fn.Params[2])), "R2.1", name, "payload/fields", cl.Pos(), "call-site fields are added to the per-call clone")
 		case "closeOpenNamespaces":
 			if cl.Parent() == fn || Eligible(cl.Parent()) {
 				sites = append(sites, emitSite{name: "close-namespaces", instr: cl, want: []string{}})
